@@ -403,15 +403,73 @@ class FnText:
         i = hits[occurrence - 1]
         return i, i + n - 1
 
+    def _stmt_bounds(self, a, b):
+        """Expand the token range [a, b] of an anchor to the statement that contains it."""
+        st = self.st
+        # backwards to the previous `;`, `{` or `}` at the anchor's nesting level
+        i, depth = a - 1, 0
+        while i > self.bo:
+            t = st[i].text
+            if st[i].kind == 'punct':
+                if t in ')]':
+                    depth += 1
+                elif t in '([':
+                    if depth == 0:
+                        # the anchor sits inside a parenthesised group: keep going outwards
+                        i -= 1
+                        continue
+                    depth -= 1
+                elif depth == 0 and t in ';{}':
+                    break
+            i -= 1
+        start = i + 1
+        # forwards to the `;` that ends the statement (blocks of if/for/while/match are skipped)
+        if st[b].text == ';':
+            return start, b
+        if st[b].text == '}' and b + 1 < len(st) and st[b + 1].text not in ('else', ';', '.', '?'):
+            return start, b
+        j, depth = b + 1, 0
+        end = b
+        while j < self.bc:
+            t = st[j].text
+            if st[j].kind == 'punct':
+                if t in '([':
+                    depth += 1
+                elif t in ')]':
+                    if depth == 0:
+                        j += 1
+                        continue      # leaving a group the anchor was inside of
+                    depth -= 1
+                elif t == '{' and depth == 0:
+                    j = match_close(st, j)
+                    end = j
+                    if j + 1 < self.bc and st[j + 1].text == 'else':
+                        j += 2
+                        continue
+                    if j + 1 < self.bc and st[j + 1].text == ';':
+                        end = j + 1
+                    break
+                elif t == ';' and depth == 0:
+                    end = j
+                    break
+                elif t == '}' and depth == 0:
+                    end = j - 1
+                    break
+            end = j
+            j += 1
+        return start, end
+
     def insert_after(self, anchor, text, occurrence=1):
         a, b = self.find_anchor(anchor, occurrence)
+        a, b = self._stmt_bounds(a, b)
         self.insert_at(self.st[b].end, '\n' + text + '\n', 'A1 proof block')
-        self.log.append({'op': 'A1 insert after anchor', 'anchor': norm(anchor), 'occurrence': occurrence, 'text': text})
+        self.log.append({'op': 'A1 insert after the statement containing the anchor', 'anchor': norm(anchor), 'occurrence': occurrence, 'text': text})
 
     def insert_before(self, anchor, text, occurrence=1):
         a, b = self.find_anchor(anchor, occurrence)
+        a, b = self._stmt_bounds(a, b)
         self.insert_at(self.st[a].start, '\n' + text + '\n', 'A1 proof block')
-        self.log.append({'op': 'A1 insert before anchor', 'anchor': norm(anchor), 'occurrence': occurrence, 'text': text})
+        self.log.append({'op': 'A1 insert before the statement containing the anchor', 'anchor': norm(anchor), 'occurrence': occurrence, 'text': text})
 
     # --- A1: closures ------------------------------------------------------
     def closures(self):
